@@ -12,7 +12,7 @@ NF_ITEM['cls'] = 'NoFormatItem'
 
 CONTRACTS = {
  'NoFormatFrameData._make_body_bytes': dict(
-    props=['C16', 'C12'],
+    props=['C16', 'C12', 'C14'],
     self_fields={'no_format_object': NF_ITEM, 'data': 'oneof[bytes,bytearray,str]'},
     params={}, returns='bytes',
     raises={'UnicodeEncodeError': f'{BAD_TEXT} or ({_ob(OBN_RAISES["UnicodeEncodeError"])})',
